@@ -4,6 +4,7 @@ import FlVerif.Drv.Fld
 import FlVerif.Drv.Engine
 import FlVerif.Drv.Term
 import FlVerif.Drv.Rules
+import FlVerif.Drv.Export
 
 /-! Registry of driver command groups: one handler per group, tried in order (`none` = not mine / malformed). -/
 
@@ -15,5 +16,7 @@ def handlers : List (List SExp → Option SExp) :=
   , engineAll
   , term
   , rules
+  , exportCmd
+  , reprCmd
   ]
 end Drv
